@@ -1663,6 +1663,15 @@ def install(m):
                 raise Panic('slice index starts at %d but ends at %d' % (lo, hi))
             if hi > n:
                 raise Panic('range end index %d out of range for slice of length %d' % (hi, n))
+            if kind == 'str':
+                # str slicing panics when an index is not on a char boundary (a UTF-8 continuation byte 0x80..0xBF)
+                es_ = container_of(m, p).elems
+                for pos in (lo, hi):
+                    if 0 < pos < n:
+                        e_ = es_[s + pos]
+                        cont = ((e_.v & 0xC0) == 0x80) if not e_.sym else ((e_.v & 0xC0) == 0x80)
+                        if m.ctx.branch(cont):
+                            raise Panic('byte index %d is not a char boundary' % pos)
             return Ptr(p.root, p.path, (kind, s + lo, hi - lo), p.mut)
         t = deref(m, base) if not (isinstance(base, Ptr) and base.meta is not None) else base
         if isinstance(t, HashMapObj):
@@ -2741,3 +2750,92 @@ def install3(m):
             return unit()
         return old_extend(m, a, c, rt)
     L['extend'] = extend
+
+
+# =============================================================================
+# thread locals, RefCell, windows
+
+class RefCellObj:
+    rust_type = 'RefCell'
+
+    def __init__(self, v):
+        self.cell = Cell(v)
+
+    def clone(self, m):
+        return RefCellObj(clone_val(self.cell.v))
+
+
+def install4(m):
+    L = m.lib
+    L['needs_drop'] = lambda m, a, c, rt: True
+    L['LazyStorage::new'] = lambda m, a, c, rt: Opaque('LazyStorage', [None])
+    L['EagerStorage::new'] = lambda m, a, c, rt: Opaque('LazyStorage', [a[0] if a else None])
+
+    def get_or_init(m, a, c, rt):
+        st = deref(m, a[0])
+        if st.data[0] is None:
+            st.data[0] = Cell(m.call_value(a[2], []))
+        return Ptr(st.data[0], (), None, True)
+    L['LazyStorage::get_or_init'] = get_or_init
+    L['get_or_init'] = get_or_init
+    L['LocalKey::new'] = lambda m, a, c, rt: Adt('LocalKey', None, [a[0]])
+
+    def local_with(m, a, c, rt):
+        key = deref(m, a[0])
+        p = m.call_value(key.fields[0], [none()])
+        return m.call_value(a[1], [p])
+    L['LocalKey::with'] = local_with
+    L['LocalKey::try_with'] = lambda m, a, c, rt: ok(local_with(m, a, c, rt))
+
+    L['RefCell::new'] = lambda m, a, c, rt: RefCellObj(a[0])
+    L['Cell::new'] = lambda m, a, c, rt: RefCellObj(a[0])
+
+    def borrow(m, a, c, rt):
+        rc = deref(m, a[0])
+        if isinstance(rc, RefCellObj):
+            return Adt('RefMut', None, [Ptr(rc.cell, (), None, True)])
+        raise Unsupported('borrow on %r' % (rc,))
+    L['RefCell::borrow_mut'] = borrow
+    L['RefCell::borrow'] = borrow
+    L['borrow_mut'] = borrow
+    L['RefCell::replace'] = lambda m, a, c, rt: _swapcell(deref(m, a[0]), a[1])
+    L['Cell::set'] = lambda m, a, c, rt: (_swapcell(deref(m, a[0]), a[1]), unit())[1]
+    L['Cell::get'] = lambda m, a, c, rt: copy_val(deref(m, a[0]).cell.v)
+    L['RefCell::into_inner'] = lambda m, a, c, rt: a[0].cell.v
+
+    old_deref = L['deref']
+
+    def deref2(m, a, c, rt):
+        v = a[0]
+        t = v
+        while isinstance(t, Ptr) and t.meta is None:
+            t = m.load(t)
+        if isinstance(t, Adt) and t.name == 'RefMut':
+            return t.fields[0]
+        return old_deref(m, a, c, rt)
+    for k in ('deref', 'deref_mut'):
+        L[k] = deref2
+
+    def windows(m, a, c, rt):
+        p = a[0] if (isinstance(a[0], Ptr) and a[0].meta is not None) else fat(m, a[0], 'slice')
+        n = a[1].v
+        if n == 0:
+            raise Panic('window size must be non-zero')
+        ln = p.meta[2]
+        return ListIter([sub(p, i, n) for i in range(0, max(ln - n + 1, 0))])
+    L['windows'] = windows
+
+    def chunks(m, a, c, rt):
+        p = a[0] if (isinstance(a[0], Ptr) and a[0].meta is not None) else fat(m, a[0], 'slice')
+        n = a[1].v
+        if n == 0:
+            raise Panic('chunk size must be non-zero')
+        ln = p.meta[2]
+        return ListIter([sub(p, i, min(n, ln - i)) for i in range(0, ln, n)])
+    L['chunks'] = chunks
+
+
+def _swapcell(rc, v):
+    old = rc.cell.v
+    rc.cell.v = v
+    return old
